@@ -112,13 +112,18 @@ def gen_chain(rng, opts=None):
     spec["src"][1]["main.c"] = ("f", b"int main(){}\n")
     spec["README"] = ("f", b"readme\n")
     nsteps = opts.get("nsteps") or rng.choice([1, 2, 2, 3, 4])
-    files = regular_files(spec)
     steps = []
     simple = opts.get("simple_recording", rng.random() < 0.6)
     common = {"exclude_patterns": None, "lstrip_paths": None, "base_path": None, "normalize_line_endings": False}
     if not simple:
-        common["exclude_patterns"] = rng.choice([None, ["*.log", "*.link*"], ["out", "*.link*"], ["*.pyc", "build.log", "*.link*"]])
+        common["exclude_patterns"] = rng.choice([None, ["*.log", "*.link*"], ["out", "*.link*"], ["*.pyc", "build.log", "*.link*"],
+                                                 ["/build", "*.link*"], ["/build", "*.link*"]])
+        if common["exclude_patterns"] and "/build" in common["exclude_patterns"]:
+            # a root-anchored pattern next to a deeper directory of the same name: only ./build is left out
+            spec["build"] = ("d", {"out.o": ("f", b"obj")})
+            spec["src"][1]["build"] = ("d", {"gen.c": ("f", b"gen\n"), "deep": ("d", {"more.py": ("f", b"m")})})
         common["normalize_line_endings"] = rng.random() < 0.4
+    files = regular_files(spec)
     for i in range(nsteps):
         ops = gen_ops(rng, files)
         for op in ops:   # keep the harness's view of existing files current
@@ -156,6 +161,43 @@ def _record(paths, st):
         return {"err": type(e).__name__}
 
 
+def _snap(st):
+    """deferred recording of the current directory by the proved recorder model + the implementation's own as fallback"""
+    from harness import modelrec
+    return {"deferred": modelrec.snapshot(".", ["."], exclude_patterns=st["exclude_patterns"], base_path=st["base_path"],
+                                          lstrip_paths=st["lstrip_paths"], normalize_line_endings=st["normalize_line_endings"],
+                                          follow_symlink_dirs=True),
+            "impl": _record(["."], st)}
+
+
+def resolve_records(model, recs):
+    """evaluate every deferred snapshot of the given step records with the extracted recorder model (C10);
+    where the tree is outside the model (link cycles ...) the implementation's recording is used"""
+    from harness import modelrec
+    slots = []
+    for r in recs:
+        for k in ("mat_before", "prod_before", "mat_after", "prod_after", "final_record"):
+            v = r.get(k)
+            if isinstance(v, dict) and "deferred" in v:
+                slots.append((r, k, v))
+    uniq = []
+    for _, _, v in slots:
+        if not any(v is u for u in uniq):
+            uniq.append(v)
+    answers = modelrec.resolve(model, [u["deferred"] for u in uniq])
+    stats = {"model": 0, "fallback": 0}
+    for u, a in zip(uniq, answers):
+        if a.get("err") in ("Unmodelled", "Diverge", "driver") or (a.get("err") or "").startswith("driver"):
+            u["resolved"] = u["impl"]
+            stats["fallback"] += 1
+        else:
+            u["resolved"] = a if "ok" in a else {"err": a["err"]}
+            stats["model"] += 1
+    for r, k, v in slots:
+        r[k] = v["resolved"]
+    return stats
+
+
 def md_file_json(md):
     return vscen.to_file(md)
 
@@ -187,7 +229,7 @@ def run_step(project, linkdir, st, tamper=None):
     rec = {"name": st["name"], "keyid": key.keyid}
     with fstree.in_dir(project), quiet():
         before_listing = set(os.listdir("."))
-        rec["mat_before"] = _record(["."], st)
+        rec["mat_before"] = _snap(st)
         rec["prod_before"] = rec["mat_before"]
         rec["two_phase"] = bool(st["two_phase"] and not st["no_command"])
         try:
@@ -206,8 +248,8 @@ def run_step(project, linkdir, st, tamper=None):
         except Exception as e:  # noqa
             rec["exc"] = type(e).__name__
             md = None
-        rec["mat_after"] = _record(["."], st)
-        rec["prod_after"] = _record(["."], st)
+        rec["mat_after"] = _snap(st)
+        rec["prod_after"] = rec["mat_after"]
         rec["cwd"] = os.getcwd().replace("\\", "/")
         fname = "%s.%s.link" % (st["name"], key.keyid[:8])
         where = os.path.join(linkdir, fname) if st["metadata_directory"] else os.path.join(project, fname)
